@@ -111,7 +111,7 @@ def pred_remerge(case, compiled=False):
     return n >= (2 if compiled else 3) and any(len(s.get(k) or []) > 1 for s in all_schemas(case) for k in ("oneOf", "anyOf"))
 
 def pred_int_number(case):
-    ts = {s.get("type") for s in all_schemas(case)}
+    ts = {s.get("type") for s in all_schemas(case) if isinstance(s.get("type"), str)}
     return "integer" in ts and "number" in ts
 
 def pred_array_items(case):
